@@ -1,0 +1,14 @@
+//go:build verif
+
+package fun
+
+// VerifHook is installed by the conformance harness (build tag verif)
+// before any goroutine is started. verifAt names a yield point; it
+// carries no claim about what the surrounding code did.
+var VerifHook func(point string)
+
+func verifAt(point string) {
+	if h := VerifHook; h != nil {
+		h(point)
+	}
+}
